@@ -86,6 +86,15 @@ def walk_avps(cx, avps, replay, depth, budget):
         if budget[0] <= 0:
             return mx
         budget[0] -= 1
+        # first read before anything else has touched the object: a payload that is malformed for its type must
+        # raise on *every* read, also after str() has swallowed the error once
+        try:
+            a.value
+            first_raised = False
+        except cx.AvpDecodeError:
+            first_raised = True
+        except BaseException:
+            first_raised = None      # judged below, at the second read
         try:
             s = str(a)
             cx.cov["str_calls"] += 1
@@ -98,8 +107,16 @@ def walk_avps(cx, avps, replay, depth, budget):
         try:
             v = a.value
             cx.cov["value_ok"] += 1
+            if first_raised:
+                cx.witness(f"value.malformed_payload_accepted_on_reread:{type(a).__name__}",
+                           {"code": a.code, "vendor": a.vendor_id, "payload": bytes(a.payload)[:40].hex(),
+                            "second_read": repr(v)[:80]}, replay)
+                continue
         except cx.AvpDecodeError:
             cx.cov["value_errors"] += 1
+            if first_raised is False:
+                cx.witness(f"value.raises_only_on_reread:{type(a).__name__}",
+                           {"code": a.code, "vendor": a.vendor_id, "payload": bytes(a.payload)[:40].hex()}, replay)
             continue
         except BaseException as e:
             cx.witness(f"value.raises.{type(e).__name__}:{type(a).__name__}",
